@@ -23,11 +23,21 @@
 (* is scattered into no longer denotes its abstract content; the ghost    *)
 (* `stale` collects such handles (closed under selection).                *)
 (* Refinement checked by TLC:  \A h \notin stale : MRows(h) = heap[h].     *)
+(*                                                                         *)
+(* WHEN the code materialises (which reads do, which do not) is modelled  *)
+(* exactly, and `stale` / Mech are exact predictions; but a verdict must  *)
+(* not depend on that timing being modelled perfectly.  The conservative  *)
+(* ghost `mayst` (handles that MAY be reading a buffer some assignment    *)
+(* scattered into, under ANY materialisation timing: anc[h] = handles     *)
+(* whose buffer h may still share, cleared only by what certainly         *)
+(* materialises, an assignment to h) over-approximates `stale`            *)
+(* (StaleWithinMayStale).  A mismatch on a handle outside `mayst` is a     *)
+(* violation; inside it, it is the named deviation.                        *)
 (***************************************************************************)
 EXTENDS Ragged, TLC
 
-VARIABLES heap, alias, bufs, view, stale, last
-hvars == <<heap, alias, bufs, view, stale, last>>
+VARIABLES heap, alias, bufs, view, stale, last, anc, mayst
+hvars == <<heap, alias, bufs, view, stale, last, anc, mayst>>
 
 Handles == DOMAIN heap
 Buf(h) == view[h][1]
@@ -62,6 +72,8 @@ NewFresh(arr, marr, m, src) ==
   /\ bufs' = Append(m[1], FlatOf(marr))
   /\ view' = Append(m[2], FreshView(Len(m[1]) + 1, Rows(arr)))
   /\ stale' = IF src \cap stale # {} THEN stale \cup {Len(heap) + 1} ELSE stale
+  /\ anc' = Append(anc, {})
+  /\ mayst' = IF src \cap mayst # {} THEN mayst \cup {Len(heap) + 1} ELSE mayst
 
 (***************************************************************************)
 (* actions                                                                 *)
@@ -81,9 +93,11 @@ Select(h, rs, cs) ==
         /\ view' = Append(m[2], IF IsWhole(rs, cs) THEN m[2][h]
                                 ELSE <<m[2][h][1], GetItem(<<"i8", m[2][h][2]>>, rs, cs)[3], FALSE>>)
         /\ stale' = IF h \in stale THEN stale \cup {k} ELSE stale
+        /\ anc' = Append(anc, IF IsWhole(rs, cs) THEN anc[h] ELSE anc[h] \cup {g \in Handles : alias[g] = alias[h]})
+        /\ mayst' = IF h \in mayst THEN mayst \cup {k} ELSE mayst
         /\ last' = <<"new", k>>
      ELSE \* a row, a flat array, a scalar, a refusal: an observation; the array may be materialised by it
-        /\ UNCHANGED <<heap, alias, stale>>
+        /\ UNCHANGED <<heap, alias, stale, anc, mayst>>
         /\ bufs' = m[1] /\ view' = m[2]                          \* (the code materialises before it checks the index)
         /\ last' = <<"obs", out, GetItem(MArr(h), rs, cs)>>      \* what level A demands, what the buffers will show
 
@@ -106,10 +120,13 @@ Assign(h, rs, cs, val) ==
         /\ bufs' = [m[1] EXCEPT ![b] = nb]
         /\ view' = m[2]
         /\ stale' = stale \cup {g \in Handles : alias[g] # alias[h] /\ m[2][g][1] = b}
+        /\ anc' = [anc EXCEPT ![h] = {}]                         \* an assignment certainly materialises its target
+        /\ mayst' = mayst \cup {g \in Handles : alias[g] # alias[h] /\ \E x \in anc[g] : alias[x] = alias[h]}
         /\ UNCHANGED alias
         /\ last' = <<"none">>
      ELSE
-        /\ UNCHANGED <<heap, alias, stale>>
+        /\ UNCHANGED <<heap, alias, stale, mayst>>
+        /\ anc' = [anc EXCEPT ![h] = {}]
         /\ bufs' = m[1] /\ view' = m[2]                          \* the target was materialised before the refusal
         /\ last' = <<"obs", out, out>>
 
@@ -125,20 +142,21 @@ UfuncStep(f, x, y) ==
       hs == SelectSeq(<<x, y>>, LAMBDA o : Tag(o) = "h")
       m == MatAll(bufs, view, [i \in DOMAIN hs |-> hs[i][2]])
   IN IF Tag(out) = "ragged" THEN NewFresh(<<out[2], out[3]>>, <<mout[2], mout[3]>>, m, {hs[i][2] : i \in DOMAIN hs}) /\ last' = <<"new", Len(heap) + 1>>
-     ELSE /\ UNCHANGED <<heap, alias, stale>> /\ bufs' = m[1] /\ view' = m[2] /\ last' = <<"obs", out, mout>>
+     ELSE /\ UNCHANGED <<heap, alias, stale, anc, mayst>> /\ bufs' = m[1] /\ view' = m[2] /\ last' = <<"obs", out, mout>>
 
 \* array functions producing a new array: name in "cumsum" "sort" "diff" "unique" "astype" (arg = n for diff), "concat" (arg = <<h2, axis>>)
 FuncStep(name, h, arg) ==
   LET F(A(_)) == CASE name = "concat" -> Concat(<<A(h), A(arg[1])>>, arg[2])
                    [] name = "diff" -> Scan("diff", A(h), arg)
                    [] name = "astype" -> <<"ragged", A(h)[1], A(h)[2]>>          \* astype(own dtype): an equal, independent array
+                   [] name \in {"sum", "max", "min", "mean", "argmax", "argmin"} -> Reduce(<<"n", name>>, A(h), -1, 0)    \* an observation
                    [] OTHER -> Scan(name, A(h), 0)
       out == F(LAMBDA g : heap[g])
       mout == F(MArr)
       src == IF name = "concat" THEN {h, arg[1]} ELSE {h}
       m == MatAll(bufs, view, IF name = "concat" THEN <<h, arg[1]>> ELSE <<h>>)
   IN IF Tag(out) = "ragged" THEN NewFresh(<<out[2], out[3]>>, <<mout[2], mout[3]>>, m, src) /\ last' = <<"new", Len(heap) + 1>>
-     ELSE /\ UNCHANGED <<heap, alias, stale>> /\ bufs' = m[1] /\ view' = m[2] /\ last' = <<"obs", out, mout>>
+     ELSE /\ UNCHANGED <<heap, alias, stale, anc, mayst>> /\ bufs' = m[1] /\ view' = m[2] /\ last' = <<"obs", out, mout>>
 
 \* read-only operations.  Printing, iterating, the flat view, reductions, every array function and ufunc executed for its
 \* result only (the result is discarded): they materialise the array they look at.  "str" (prints a temporary selection),
@@ -147,7 +165,7 @@ NonTouching == {"str", "len", "shape", "size", "dtype", "lengths", "copy", "colv
 ReadMaterialises(kind) == kind \notin NonTouching
 Read(h, kind) ==
   LET m == IF ReadMaterialises(kind) THEN MatIn(bufs, view, h) ELSE <<bufs, view>> IN
-  /\ UNCHANGED <<heap, alias, stale>>                             \* C10: looking changes nothing
+  /\ UNCHANGED <<heap, alias, stale, anc, mayst>>                 \* C10: looking changes nothing
   /\ bufs' = m[1] /\ view' = m[2]
   /\ last' = <<"none">>
 
@@ -168,7 +186,7 @@ HandlesOf(st) ==
     [] st[1] = "func" -> IF st[2] = "concat" THEN {st[3], st[4][1]} ELSE {st[3]}
     [] OTHER -> {}
 
-HeapInit == heap = <<>> /\ alias = <<>> /\ bufs = <<>> /\ view = <<>> /\ stale = {} /\ last = <<"none">>
+HeapInit == heap = <<>> /\ alias = <<>> /\ bufs = <<>> /\ view = <<>> /\ stale = {} /\ last = <<"none">> /\ anc = <<>> /\ mayst = {}
 
 (***************************************************************************)
 (* properties                                                              *)
@@ -177,6 +195,8 @@ HeapInit == heap = <<>> /\ alias = <<>> /\ bufs = <<>> /\ view = <<>> /\ stale =
 RefinesModuloStale == \A h \in Handles : h \notin stale => MRows(h) = heap[h][2]
 \* only stale handles can be wrong (the deviation is the ONLY way the mechanism departs from the abstract content)
 WrongOnlyIfStale == \A h \in Handles : MRows(h) # heap[h][2] => h \in stale
+\* the conservative ghost covers the exact one, whatever the materialisation timing
+StaleWithinMayStale == stale \subseteq mayst
 \* "stale = {}" is C10/C06 at level M: TLC reports the 3-step counterexample Select; Assign(parent); observe(view)
 NoStale == stale = {}
 \* aliases always agree
